@@ -80,6 +80,10 @@ def build(ck):
 
 # ---------------------------------------------------------------------- running
 
+# a validity window with time_t -1 (1969-12-31 23:59:59) as notBefore or notAfter: known finding K4
+MINUS_ONE = re.compile(r":w-1_|:w-?\d+_-1:")
+
+
 class Runner:
     """runs harness (own tmpdir + stats file per invocation) and driver on op lines"""
 
@@ -126,9 +130,39 @@ class Runner:
                 k = l[:40]
             self.hist[k] = self.hist.get(k, 0) + 1
 
+    def known_minus_one(self, cases, label):
+        """K4: a validity date of exactly time_t -1.  Each such case runs on its own; a difference is reported
+        with class validity:time_t-minus-1 so that ONLY the known shape (refused, model established) is routed
+        to the known finding -- any other difference on these cases is a violation like everywhere else."""
+        ck = self.ck
+        nfail = 0
+        for c in cases:
+            cmd = self.hcmd()
+            cl, ml, err = ck.both(cmd, self.dcmd, "#case\n" + "\n".join(c) + "\n", 300)
+            self.add_stats(cmd)
+            ck.count(1)
+            ck.distinct(tuple(c))
+            ck.cov["minus_one_date_cases"] = ck.cov.get("minus_one_date_cases", 0) + 1
+            if ck.first_diff(cl, ml) is None:
+                self.tally(cl)
+                continue
+            est = lambda ls: 1 if any(l.startswith("est=1") for l in ls) else 0
+            if ck.report("obs", {"label": label + ":time_t-1", "class": "validity:time_t-minus-1", "ops": list(c),
+                                 "impl": cl[1:], "model": ml[1:], "minus_one_date": True,
+                                 "impl_est": est(cl), "model_est": est(ml), "stderr": vf.san_summary(err)}):
+                nfail += 1
+            else:
+                ck.cov["known_K4_hits"] = ck.cov.get("known_K4_hits", 0) + 1
+        return nfail
+
     def par_compare(self, cases, label, chunk=200, workers=8, nontrivial=None):
         ck = self.ck
         t0 = time.time()
+        m1 = [c for c in cases if len(c) == 1 and MINUS_ONE.search(c[0])]
+        extra_fail = 0
+        if m1:
+            cases = [c for c in cases if not (len(c) == 1 and MINUS_ONE.search(c[0]))]
+            extra_fail = self.known_minus_one(m1, label)
         chunks = list(vf.chunks(cases, chunk))
 
         def one(ch):
@@ -170,8 +204,8 @@ class Runner:
                 ck.count(len(ch))
                 ck.cov["failing_chunks_not_minimised"] = ck.cov.get("failing_chunks_not_minimised", 0) + 1
         ck.cov.setdefault("phase_s", {})[label] = round(time.time() - t0, 2)
-        ck.cov.setdefault("phase_cases", {})[label] = len(cases)
-        return nfail
+        ck.cov.setdefault("phase_cases", {})[label] = len(cases) + len(m1)
+        return nfail + extra_fail
 
     def close(self):
         shutil.rmtree(self.root, ignore_errors=True)
@@ -412,6 +446,11 @@ def window_family(env, rng):
                 out.append([hs_line(env, rng, ciph=0, cp=24, sp=rng.choice([8, 24]), vc=1, vn=1, vt=1, svt=vt,
                                     svc=rng.choice([1, 2]), host="match", scert="trusted", cwin=(nb, na),
                                     n=rng.below(100))])
+    # the one-second corner of known finding K4 (routed on its own, see Runner.known_minus_one)
+    out.append([hs_line(env, rng, ciph=0, cp=24, sp=24, vc=1, vn=1, vt=1, svc=0, ccert="none", host="match",
+                        swin=(-1, 2840140800), n=rng.below(100), noise=0, rc=0)])
+    out.append([hs_line(env, rng, ciph=0, cp=24, sp=24, vc=1, vn=1, vt=1, svt=0, svc=1, host="match",
+                        scert="trusted", cwin=(-631152000, -1), n=rng.below(100), noise=0, rc=0)])
     return out
 
 
@@ -689,8 +728,9 @@ def run_checked(ck, run, env, ca0, cipher_ok, curve_nid):
         "OpenSSL permits per cipher setting: default=%d, DEFAULT:@SECLEVEL=0=%d (TLS_PROTOCOL_* masks, probed)"
         % (env.perm[0], env.perm[1]),
         "tls_get_conninfo does not fail (allocation failure is property C10)",
-        "a validity date of exactly 1969-12-31 23:59:59 (time_t -1) is not generated: timegm()'s error value is "
-        "indistinguishable from it in the unchanged library (tls_get_peer_cert_times, tls_asn1_parse_time)",
+        "a validity date of exactly 1969-12-31 23:59:59 (time_t -1) is known finding K4 (timegm()'s error value is "
+        "in-band in tls_get_peer_cert_times / tls_asn1_parse_time): such cases run on every tier and only the known "
+        "shape (refused where the model establishes) is tolerated",
         "frame condition: where a CA / certificate / key comes from (file, memory, hashed directory) is not an input "
         "of the decision model"]
     ck.cov["openssl_permitted_masks"] = {"default": env.perm[0], "seclevel0": env.perm[1]}
